@@ -430,7 +430,7 @@ impl Prop for C19 {
     }
     fn build(&self, ch: &mut Chooser, cx: &mut CaseCtx) -> C19Case {
         let strip = ch.below(4);
-        let kind = ch.pick(&["create", "modify", "delete", "rename"]).to_string();
+        let kind = ch.pick(&["create", "modify", "delete", "rename", "rename-only", "mode-only"]).to_string();
         // the escaping name, relative to the workspace root, before prefixing
         let abs_victim = cx.env.scratch.join("ABSVICTIM").to_string_lossy().into_owned();
         let evil: String = match ch.below(9) {
@@ -476,20 +476,21 @@ impl Prop for C19 {
         let (old_raw, new_raw): (String, String) = match kind.as_str() {
             "create" => ("/dev/null".into(), raw_evil.clone()),
             "delete" => (raw_evil.clone(), "/dev/null".into()),
-            "rename" => {
+            "rename" | "rename-only" => {
                 if ch.chance(1, 2) {
                     (raw_good.clone(), raw_evil.clone())
                 } else {
                     (raw_evil.clone(), raw_good.clone())
                 }
             }
+            "mode-only" => (raw_evil.clone(), raw_evil.clone()),
             _ => match ch.below(3) {
                 0 => (raw_evil.clone(), raw_evil.clone()),
                 1 => (raw_evil.clone(), raw_good.clone()),
                 _ => (format!("{}nonexistent.txt", prefix), raw_evil.clone()),
             },
         };
-        let git = if kind == "rename" || ch.chance(1, 3) { Some((B(quote(if old_raw == "/dev/null" { &new_raw } else { &old_raw })), B(quote(if new_raw == "/dev/null" { &old_raw } else { &new_raw })))) } else { None };
+        let git = if kind == "rename" || kind == "rename-only" || kind == "mode-only" || ch.chance(1, 3) { Some((B(quote(if old_raw == "/dev/null" { &new_raw } else { &old_raw })), B(quote(if new_raw == "/dev/null" { &old_raw } else { &new_raw })))) } else { None };
         let strip_of = |s: &str| if s == "/dev/null" { String::new() } else { strip_components(s, strip) };
         let (so, sn) = (strip_of(&old_raw), strip_of(&new_raw));
         let escapes = lexical_escape(&so) || lexical_escape(&sn);
@@ -497,7 +498,7 @@ impl Prop for C19 {
             minus: B(if old_raw == "/dev/null" { b"/dev/null".to_vec() } else { quote(&old_raw) }),
             plus: B(if new_raw == "/dev/null" { b"/dev/null".to_vec() } else { quote(&new_raw) }),
             git,
-            rename: kind == "rename",
+            rename: kind == "rename" || kind == "rename-only",
             strip,
             kind,
             stripped_old: so,
@@ -544,12 +545,17 @@ impl Prop for C19 {
                 text.extend_from_slice(b"similarity index 80%\nrename from x\nrename to y\n");
             }
         }
-        text.extend_from_slice(b"--- ");
-        text.extend_from_slice(&case.minus);
-        text.extend_from_slice(b"\n+++ ");
-        text.extend_from_slice(&case.plus);
-        text.push(b'\n');
-        text.extend_from_slice(hunk);
+        if case.kind == "mode-only" {
+            text.extend_from_slice(b"old mode 100644\nnew mode 100755\n");
+        }
+        if case.kind != "mode-only" && case.kind != "rename-only" {
+            text.extend_from_slice(b"--- ");
+            text.extend_from_slice(&case.minus);
+            text.extend_from_slice(b"\n+++ ");
+            text.extend_from_slice(&case.plus);
+            text.push(b'\n');
+            text.extend_from_slice(hunk);
+        }
         let mut patches = vec![];
         let mut series = String::new();
         if case.good_first {
